@@ -124,6 +124,10 @@ def run(chk):
             if got != w:
                 chk.violation("c08:search:inexact", f"{e} under maximum_search={L} gives {d}; expected {w} (a search may examine at most L elements)",
                               {"src": f"let r = {e};", "get": ["r"], "limits": {"search": L}, "expected": w, "got": d})
+    # ---- the whole exported library surface: under any call / depth / search limit a call that runs user callbacks ends
+    #      in that limit's violation or in exactly the unlimited outcome, monotonically in the limit
+    from . import libprobe
+    libprobe.limit_transparency(chk, rng, 1 if quick else 6, prefix="c08")
     return chk.finish(rule="for each generated program (random core programs and 14 recursion templates) the oracle computes max frame height, number of user calls and max consecutive "
                            "tail calls; every limit value 1..need+2 is run alone, plus random combinations and the unlimited run; host histories of run_function/reset under a call limit; "
                            "searching builtins under search limits around the number of examined elements; non-trivial = every run under a limit; distinct by source + limits")
